@@ -12,7 +12,8 @@ RULE_TEXT = ("The implementation is matched clause by clause against the abstrac
              "through back_mut; pop_error = pop_front; error_count = len; no other Deque mutator anywhere in the "
              "crate; C09-H the blanket ErrorHandler pushes its argument exactly once; NEXT? pops once and answers "
              "(number, text) or (0, \"\"); COUNt? answers error_count; push/pop have no other caller; C09-T number() "
-             "and the text table cover every variant, numbers agree with the SCPI-1999 table, -350/-113 texts as stated.")
+             "and the text table cover every variant, numbers agree with the SCPI-1999 table, -350/-113 texts as stated."
+             " C09-D: on every witness interface with ErrorCommands each spelling of SYSTem:ERRor[:NEXT]? / :COUNt? reaches exactly system_error_next / system_error_count through the emitted trie and the generated dispatcher.")
 
 Q = "<microscpi::error_queue::StaticErrorQueue<N> as microscpi::error_queue::ErrorQueue>::"
 DEQ = "heapless::deque::Deque::"
@@ -195,6 +196,54 @@ def run(ck):
                 ok = t_.lower() == STATED_TEXT[v]
             ck.judge(ok, "C09-T", "error-table:" + v, "%s -> %s, %r" % (v, n_, t_),
                      "%s -> number %s (SCPI-1999: %s), text %r%s" % (v, n_, SCPI.get(v), t_, " (stated: %r)" % STATED_TEXT[v] if v in STATED_TEXT else ""))
+    rule_D(ck)
+
+
+def rule_D(ck):
+    """C09-D: in every witness interface that requests ErrorCommands, each spelling of SYSTem:ERRor[:NEXT]? and
+    SYSTem:ERRor:COUNt? reaches - through the emitted trie and the generated dispatcher - exactly the queue-reading
+    function of commands.rs (and no user handler)."""
+    import witness
+    if getattr(ck, "cfg_rerun", False):
+        return
+    count = 400 if ck.tier == "thorough" else 40
+    fs, specs, failures = witness.build(ck, ck.seed, count)
+    wit = fs.crate("wit.rlib")
+    if fs.rc != 0 or wit is None:
+        ck.bad("C09-D", "witness:build", "witness interfaces do not build: %s" % [m for _, m in failures][:1])
+        return
+    enums = ctx.enums_of(wit)
+    n = 0
+    for spec in specs:
+        if "ErrorCommands" not in spec["flags"]:
+            continue
+        it = witness.Iface(wit, spec)
+        lang_spec, coll = witness.S.language(witness.S.full_decls(spec))
+        lang, problems, seen = it.language()
+        arms = witness.Arms(it, enums)
+        m = spec["mod"]
+        if coll or lang is None or problems or not arms.ok:
+            ck.bad("C09-D", "witness:%s:shape" % m, "trie / dispatcher of the witness interface cannot be read: %s" % (problems or coll)[:2])
+            continue
+        id2fn = {}
+        for k, xs in arms.by_arm.items():
+            hs = set()
+            for x in xs:
+                hs.update(h[1] for h in arms.handler_calls(x))
+            id2fn[k] = hs
+        bad = []
+        k = 0
+        for key, fn in lang_spec.items():
+            if "ErrorCommands::" not in fn:
+                continue
+            k += 1
+            got = id2fn.get(lang.get(key), set())
+            if got != {fn}:
+                bad.append((":".join(key[0]), fn.split("::")[-1], sorted(got)))
+        n += 1
+        ck.judge(not bad and k >= 2, "C09-D", "witness:%s:error-commands" % m, "%d spellings of the error queries reach system_error_next / system_error_count" % k,
+                 "error-queue queries of interface %s do not reach the queue: %s" % (m, bad[:4]))
+    ck.floor("C09-D", "witness interfaces with ErrorCommands", n, 3)
 
 
 def table(lib, path):
